@@ -75,6 +75,9 @@ use interner::{HasInterner, Interner};
 pub mod could_match;
 pub mod debug;
 
+#[cfg(chalk_verif)]
+pub mod verif;
+
 /// Variance
 #[derive(Copy, Clone, Debug, PartialEq, Eq, Hash)]
 pub enum Variance {
